@@ -136,11 +136,15 @@ func solve(dir, name, text string, timeoutS int, thorough bool) SolveResult {
 			st, out, ms := runSolver(ctx, sp, file, timeoutS)
 			if i < 4 && thorough {
 				if st == "sat" || st == "unsat" {
-					atomic.AddInt32(&baseDefinite, 1)
+					// thorough: two of the base configurations must have given a definitive answer (a
+					// disagreement between any two is an error); the others are then not waited for
+					if atomic.AddInt32(&baseDefinite, 1) >= 2 {
+						cancel()
+					}
 				}
 				if atomic.AddInt32(&baseLeft, -1) == 0 {
 					if atomic.LoadInt32(&baseDefinite) > 0 {
-						cancel() // the four base solvers have answered: the extras are not needed
+						cancel()
 					}
 					releaseExtras()
 				}
